@@ -37,6 +37,11 @@ def programs(tier):
         "implicit-results": ([A, Bd], ["u1"], [("decl", "Signal", "t1", B("+", V("u1"), I(1))), ("decl", "Signal", "t2", B(">", I(3), I(2))),
                                                ("decl", "Signal", "r", B("+", B("*", V("t1"), V("a")), B("*", V("t2"), V("b"))))], ["r"]),
     }
+    # untyped variables whose NAMES are signal names the program also uses explicitly
+    coal = ("decl", "Signal", "kc", ("lit", "coal", I(0)))
+    small["named-like-item"] = ([coal], ["coal"], [("decl", "Bundle", "bb", ("bundle", [V("coal"), V("kc")])),
+                                                    ("decl", "Bundle", "r", B("*", V("bb"), I(3)))], ["r"])
+    small["named-like-item-arith"] = ([coal], ["stone", "wood"], [("decl", "Signal", "r", B("+", B("*", V("stone"), V("kc")), V("wood")))], ["r"])
     for tag, (pre, us, body, outs) in small.items():
         yield {"tag": tag, "pre": pre, "untyped": us, "body": body, "outputs": outs, "k": len(us)}
     # explicit uses of pool signals that sit deep in the allocation order (digits, colours, arrows, shapes, symbols)
